@@ -365,9 +365,16 @@ pub struct Effects {
 pub fn track<R>(f: impl FnOnce() -> R) -> (R, Effects) {
     EVER_TRACKED.store(true, Ordering::Relaxed);
     let mark = internal(|| TABLE.with(|t| t.events.len()));
-    let prev = set_track(true);
-    let r = f();
-    set_track(prev);
+    struct Restore(bool);
+    impl Drop for Restore {
+        fn drop(&mut self) {
+            set_track(self.0);
+        }
+    }
+    let r = {
+        let _g = Restore(set_track(true));
+        f()
+    };
     let eff = effects_since(mark);
     (r, eff)
 }
